@@ -745,10 +745,34 @@ def rule_enqueue_binding(ctx, r):
             for x in ast.walk(t):
                 if isinstance(x, ast.Name) and x.id in params and x.id in passed:
                     rebound.append((x.id, n))
-    r.check(not rebound, f"{enq.module.relpath}::{enq.qual}::unchanged", "the caller's values reach the coroutine unchanged (no parameter is rebound on the way)",
-            f"enqueue_task rebinds `{rebound[0][0] if rebound else ''}` before handing it to the task coroutine (`{ast.unparse(rebound[0][1])[:70] if rebound else ''}`): e.g. prerequisites "
-            "that already finished are dropped, so a failed/cancelled prerequisite is never examined and the dependent runs", loc(rebound[0][1], enq.module) if rebound else enq.where)
-
+    if rebound:
+        # a parameter is assigned on the way (validation, normalisation, ...): what matters is what arrives.  Evaluated on a pool whose table holds finished, failed,
+        # cancelled and running tasks, for every kind of time limit a client may send.
+        from .evalhelpers import eval_enqueue
+        from ..consteval import EnumVal
+        members = ("COMPLETED", "FAILED", "CANCELLED", "RUNNING", "SUBMITTED")
+        states = {i + 1: EnumVal("gwf.backends.local.LocalStatus", mem) for i, mem in enumerate(members)}
+        changed = []
+        for tl in (None, 5, 0.5, 86400):
+            out, _m = eval_enqueue(ctx, args=("N", "S", "/w", tl, [1, 2, 3, 4, 5]), states=states)
+            if "error" in out:
+                if out["error"].startswith("Unsupported"):
+                    from ..symeval import Unsupported as _U
+                    raise _U(f"enqueue_task rebinds `{rebound[0][0]}` and cannot be evaluated: {out['error']}")
+                changed.append(f"time_limit={tl!r}, deps=[1..5] -> {out['error'][:80]}")
+                continue
+            for a, k in out["started"]:
+                bound = dict(zip(th.positional_params()[1:], a))
+                bound.update(k)
+                if list(bound.get("deps") or []) != [1, 2, 3, 4, 5] or bound.get("time_limit") != tl or type(bound.get("time_limit")) is not type(tl):
+                    changed.append(f"time_limit={tl!r}, deps=[1..5] (completed, failed, cancelled, running, submitted) arrive as time_limit={bound.get('time_limit')!r}, deps={bound.get('deps')!r}")
+            if not out["started"]:
+                changed.append(f"time_limit={tl!r}: no worker coroutine is started")
+        r.check(not changed, f"{enq.module.relpath}::{enq.qual}::unchanged", "the caller's values reach the coroutine unchanged (evaluated: 4 time limits x prerequisites in every state)",
+                f"enqueue_task rebinds `{rebound[0][0]}` (`{ast.unparse(rebound[0][1])[:70]}`) and the task coroutine does not get what the client sent: " + "; ".join(changed[:2])
+                + " - e.g. prerequisites that already finished are dropped, so a failed/cancelled prerequisite is never examined and the dependent runs", loc(rebound[0][1], enq.module))
+    else:
+        r.ok(f"{enq.module.relpath}::{enq.qual}::unchanged", "the caller's values reach the coroutine unchanged (no parameter is rebound on the way)", enq.where)
 
 
 def rule_enqueue_registers(ctx, r):
@@ -777,6 +801,8 @@ def rule_enqueue_registers(ctx, r):
         a, k = out["started"][0]
         bound = dict(zip(["tid", "name", "script", "working_dir", "time_limit", "deps"], a))
         bound.update(k)
+        if isinstance(bound.get("deps"), (tuple, set, frozenset)):
+            bound["deps"] = sorted(bound["deps"])       # any re-iterable collection of the same ids is as good as the list
         if bound != {"tid": 7, "name": "N", "script": "S", "working_dir": "/w", "time_limit": 5, "deps": [1, 2]}:
             problems.append(f"the worker coroutine is started with {bound}")
     r.check(not problems, con, "id 7 -> worker task + SUBMITTED, coroutine(tid=7, request fields), returns 7", "enqueue_task: " + "; ".join(problems), m.where)
